@@ -8,6 +8,7 @@
   and implicit pops — is the decorated image of the plain parser's state on the same tokens.
 -/
 import AHP.Model.Format
+import AHP.Lemmas.Squeeze
 namespace AHP.Fmt
 open AHP
 
@@ -380,6 +381,14 @@ def Safe : Bool → List Tok → Prop
 
 def NoWrapperStart (toks : List Tok) : Prop := ∀ t ∈ toks, t.startName? ≠ some wrapper
 
+instance (toks : List Tok) : Decidable (NoWrapperStart toks) := by unfold NoWrapperStart; infer_instance
+
+/-- `r` is a successful result with this text (a decidable way to state examples) -/
+def okIs (r : Except Err Str) (s : String) : Bool :=
+  match r with
+  | .ok h => h == s.toList
+  | .error _ => false
+
 theorem WF_push (f : Frame) (fs : List Frame) (h : WF fs) (hn : f.name ≠ wrapper ∨ fs = []) : WF (f :: fs) := by
   cases fs with
   | nil => trivial
@@ -597,30 +606,31 @@ theorem feed_dec (cfg : Cfg) (toks : List Tok) (h : NoWrapperStart toks) :
 
 /-! #### the finished tree -/
 
-theorem rootOfStack_dec (cfg : Cfg) : ∀ (n : Nat) (fs : List Frame) (c : Option Node), fs.length = n →
+theorem zipUp_dec (cfg : Cfg) : ∀ (fs : List Frame) (n : Node),
+    zipUp (decorate cfg (ctxOf fs) (topName fs) n) (decFrames cfg fs) = dec0 cfg (zipUp n fs) := by
+  intro fs
+  induction fs with
+  | nil => intro n; simp [zipUp, decFrames, ctxOf, topName, dec0]
+  | cons f r ih =>
+    intro n
+    simp only [decFrames, zipUp]
+    rw [← ih (Frame.close { f with rev := n :: f.rev })]
+    congr 1
+    have := close_dec cfg { f with rev := n :: f.rev } r (topName r)
+    simp only [ctxOf, decorateL] at this
+    simpa [ctxOf, topName] using this
+
+theorem rootOfStack_dec (cfg : Cfg) (fs : List Frame) (c : Option Node) :
     rootOfStack (decFrames cfg fs) (c.map (dec0 cfg)) = (rootOfStack fs c).map (dec0 cfg) := by
-  intro n
-  induction n with
-  | zero =>
-    intro fs c hl
-    have : fs = [] := List.length_eq_zero_iff.mp hl
-    subst this
-    simp [decFrames, rootOfStack]
-  | succ n ih =>
-    intro fs c hl
-    cases fs with
-    | nil => simp at hl
-    | cons f r =>
-      simp only [decFrames]
-      rw [rootOfStack, rootOfStack]
-      rw [close_dec cfg f r (topName r), attach_dec]
-      apply ih
-      rw [length_attach]
-      simpa using hl
+  cases fs with
+  | nil => simp [decFrames, rootOfStack]
+  | cons f r =>
+    simp only [decFrames, rootOfStack, Option.map_some]
+    rw [close_dec cfg f r (topName r), zipUp_dec]
 
 theorem root_dec (cfg : Cfg) (s : St) : (decSt cfg s).root = s.root.map (dec0 cfg) := by
   unfold St.root
-  exact rootOfStack_dec cfg _ s.stack s.closed rfl
+  exact rootOfStack_dec cfg s.stack s.closed
 
 /-- **C11/C12 core**: for every token sequence, the document the formatter serialises is the plain parser's
     document with every element's `_indent` and every data block rewritten as `decorate` says — a function of the
@@ -633,5 +643,335 @@ theorem format_tree (cfg : Cfg) (toks : List Tok) (h : NoWrapperStart toks) :
   cases Plain.feed toks with
   | ok ps => exact ⟨decSt cfg ps, rfl, root_dec cfg ps, rfl⟩
   | error e => rfl
+
+/-! #### what `decorate` preserves -/
+
+mutual
+/-- the document modulo formatting: element class and `_indent` forgotten, data blocks with all white space
+    removed, verbatim blocks (references, comments) untouched -/
+def skel : Node → Node
+  | .text true s => .text true s
+  | .text false s => .text false (eraseWS s)
+  | .elem _ n st sc _ kids => .elem .normal n st sc [] (skelL kids)
+def skelL : List Node → List Node
+  | [] => []
+  | x :: xs => skel x :: skelL xs
+end
+
+mutual
+/-- the same tree as objects of class `k` without any `_indent` -/
+def rekind (k : Kind) : Node → Node
+  | .text v s => .text v s
+  | .elem _ n st sc _ kids => .elem k n st sc [] (rekindL k kids)
+def rekindL (k : Kind) : List Node → List Node
+  | [] => []
+  | x :: xs => rekind k x :: rekindL k xs
+end
+
+mutual
+theorem skel_decorate (cfg : Cfg) (c : Ctx) (p : Str) : ∀ t : Node, skel (decorate cfg c p t) = skel t
+  | .text true s => by simp [decorate]
+  | .text false s => by
+    simp only [decorate, skel]
+    split
+    · rw [eraseWS_squeeze]
+    · rfl
+  | .elem k n st sc ind kids => by
+    simp only [decorate, skel]
+    rw [skelL_decorate cfg (c.push n) n kids]
+theorem skelL_decorate (cfg : Cfg) (c : Ctx) (p : Str) : ∀ l : List Node, skelL (decorateL cfg c p l) = skelL l
+  | [] => by simp [decorateL]
+  | x :: xs => by
+    simp only [decorateL, skelL]
+    rw [skel_decorate cfg c p x, skelL_decorate cfg c p xs]
+end
+
+theorem push_inPre_pos (c : Ctx) (n : Str) (h : c.inPre ≠ 0) : (c.push n).inPre ≠ 0 := by
+  unfold Ctx.push
+  by_cases hp : isPre n = true <;> simp [hp, h]
+
+mutual
+/-- below a pre/code ancestor nothing is rewritten: same blocks, same text, no `_indent` anywhere -/
+theorem decorate_inPre (cfg : Cfg) (c : Ctx) (p : Str) (h : c.inPre ≠ 0) :
+    ∀ t : Node, decorate cfg c p t = rekind cfg.kind (decorate cfg c p t) ∧ rekind cfg.kind (decorate cfg c p t) = rekind cfg.kind t
+  | .text true s => by simp [decorate, rekind]
+  | .text false s => by simp [decorate, rekind, h]
+  | .elem k n st sc ind kids => by
+    have ih := decorateL_inPre cfg (c.push n) n (push_inPre_pos c n h) kids
+    simp only [decorate, rekind, indentAt, h, if_false]
+    constructor
+    · rw [← ih.1]
+    · rw [ih.2]
+theorem decorateL_inPre (cfg : Cfg) (c : Ctx) (p : Str) (h : c.inPre ≠ 0) :
+    ∀ l : List Node, decorateL cfg c p l = rekindL cfg.kind (decorateL cfg c p l)
+      ∧ rekindL cfg.kind (decorateL cfg c p l) = rekindL cfg.kind l
+  | [] => by simp [decorateL, rekindL]
+  | x :: xs => by
+    have i1 := decorate_inPre cfg c p h x
+    have i2 := decorateL_inPre cfg c p h xs
+    simp only [decorateL, rekindL]
+    constructor
+    · rw [← i1.1, ← i2.1]
+    · rw [i1.2, i2.2]
+end
+
+/-! #### the indentation law (C12a) -/
+
+mutual
+/-- The law on a tree, with depth recomputed from the tree itself: `depth` = number of proper ancestors other than
+    the invisible wrapper, `pre` = some ancestor is pre/code.  Outside pre/code an element's `_indent` is a line
+    break followed by `depth` copies of the indent unit (nothing at all for the mini classes); inside, nothing. -/
+def LayoutOK (cfg : Cfg) (depth : Nat) (pre : Bool) : Node → Prop
+  | .text _ _ => True
+  | .elem _ n _ _ ind kids =>
+    ind = (if pre || cfg.mini then [] else '\n' :: rep depth cfg.indent)
+    ∧ LayoutOKL cfg (if n ≠ wrapper then depth + 1 else depth) (pre || isPre n) kids
+def LayoutOKL (cfg : Cfg) (depth : Nat) (pre : Bool) : List Node → Prop
+  | [] => True
+  | x :: xs => LayoutOK cfg depth pre x ∧ LayoutOKL cfg depth pre xs
+end
+
+theorem push_inPre_iff (c : Ctx) (n : Str) : (decide ((c.push n).inPre ≠ 0)) = (decide (c.inPre ≠ 0) || isPre n) := by
+  unfold Ctx.push
+  by_cases hp : isPre n = true <;> by_cases h0 : c.inPre = 0 <;> simp [hp, h0]
+
+mutual
+theorem layout_decorate (cfg : Cfg) (c : Ctx) (p : Str) :
+    ∀ t : Node, LayoutOK cfg c.level (decide (c.inPre ≠ 0)) (decorate cfg c p t)
+  | .text true s => by simp [decorate, LayoutOK]
+  | .text false s => by simp [decorate, LayoutOK]
+  | .elem k n st sc ind kids => by
+    simp only [decorate, LayoutOK]
+    refine ⟨?_, ?_⟩
+    · unfold indentAt getIndent
+      by_cases h0 : c.inPre = 0 <;> by_cases hm : cfg.mini = true <;> simp [h0, hm]
+    · have := layoutL_decorate cfg (c.push n) n kids
+      rw [push_inPre_iff] at this
+      simpa [Ctx.push] using this
+theorem layoutL_decorate (cfg : Cfg) (c : Ctx) (p : Str) :
+    ∀ l : List Node, LayoutOKL cfg c.level (decide (c.inPre ≠ 0)) (decorateL cfg c p l)
+  | [] => by simp [decorateL, LayoutOKL]
+  | x :: xs => by
+    simp only [decorateL, LayoutOKL]
+    exact ⟨layout_decorate cfg c p x, layoutL_decorate cfg c p xs⟩
+end
+
+/-! #### start and end tags as text -/
+
+theorem endsWith_append (a suf : Str) : endsWith suf (a ++ suf) = true := by
+  simp [endsWith, List.isSuffixOf_iff_suffix]
+
+theorem dropLast_append (a suf : Str) : dropLast suf.length (a ++ suf) = a := by
+  simp [dropLast]
+
+/-- `AdvancedTagSlim.getStartTag`'s surgery on the text of a start tag -/
+def slimSurgery (ssc : Bool) (ret : Str) : Str :=
+  if endsWith (str " >") ret then dropLast 2 ret ++ str ">"
+  else if ssc && endsWith (str " />") ret then dropLast 3 ret ++ str "/>"
+  else ret
+
+theorem startTag_slim_eq (ssc : Bool) (n : Str) (st : AStore) (sc : Bool) (ind : Str) :
+    startTag (.slim ssc) n st sc ind = slimSurgery ssc (startTag .normal n st sc ind) := rfl
+
+theorem slimSurgery_open (ssc : Bool) (x : Str) : slimSurgery ssc (x ++ str " >") = x ++ str ">" := by
+  unfold slimSurgery
+  rw [endsWith_append]
+  simp only [if_true]
+  have := dropLast_append x (str " >")
+  simp only [str] at this ⊢
+  rw [show (" >".toList).length = 2 from rfl] at this
+  rw [this]
+
+theorem not_endsWith_sc (x : Str) : endsWith (str " >") (x ++ str " />") = false := by
+  simp [endsWith, List.isSuffixOf, str, List.isPrefixOf]
+
+theorem slimSurgery_selfclosed (ssc : Bool) (x : Str) :
+    slimSurgery ssc (x ++ str " />") = x ++ (if ssc then str "/>" else str " />") := by
+  unfold slimSurgery
+  rw [not_endsWith_sc, endsWith_append]
+  have := dropLast_append x (str " />")
+  rw [show (str " />").length = 3 from rfl] at this
+  cases ssc
+  · simp
+  · simp only [Bool.true_and, if_true]
+    rw [this]
+    simp
+
+/-- the start tag of the normal classes: `_indent`, `<name`, attributes, ` >` or ` />` -/
+theorem startTag_normal (n : Str) (st : AStore) (sc : Bool) (ind : Str) :
+    startTag .normal n st sc ind = ind ++ ('<' :: n ++ attrString st) ++ (if sc then str " />" else str " >") := by
+  simp [startTag, startTagNormal]
+
+/-- C12c on one start tag: the slim classes write the same text without the space before `>` (before `/>` only
+    with slimSelfClosing). -/
+theorem startTag_slim (ssc : Bool) (n : Str) (st : AStore) (sc : Bool) (ind : Str) :
+    startTag (.slim ssc) n st sc ind
+      = ind ++ ('<' :: n ++ attrString st) ++ (if sc then (if ssc then str "/>" else str " />") else str ">") := by
+  rw [startTag_slim_eq, startTag_normal]
+  cases sc
+  · simpa using slimSurgery_open ssc (ind ++ ('<' :: n ++ attrString st))
+  · simpa using slimSurgery_selfclosed ssc (ind ++ ('<' :: n ++ attrString st))
+
+/-- every start tag begins with the element's `_indent` -/
+theorem startTag_prefix (k : Kind) (n : Str) (st : AStore) (sc : Bool) (ind : Str) :
+    ∃ rest, startTag k n st sc ind = ind ++ rest ∧ rest.head? = some '<' := by
+  cases k with
+  | normal => exact ⟨_, by rw [startTag_normal, List.append_assoc], by simp⟩
+  | slim ssc => exact ⟨_, by rw [startTag_slim, List.append_assoc], by simp⟩
+
+/-- the end tag of an element that is not self-closing: preceded by its `_indent`, except for pre/code and for
+    script/style content that already ends with exactly that indent -/
+theorem endTag_cases (n : Str) (ind : Str) (kids : List Node) :
+    endTag n false ind kids = ind ++ str "</" ++ n ++ str ">"
+    ∨ (endTag n false ind kids = str "</" ++ n ++ str ">"
+        ∧ (isPre n = true ∨ (isPreserve n = true ∧ lastTextEndsWith ind kids = true))) := by
+  unfold endTag
+  simp only [Bool.false_eq_true, if_false]
+  by_cases h1 : (!ind.isEmpty && isPre n) = true
+  · simp only [h1, if_true]
+    right; exact ⟨trivial, Or.inl (by simp at h1; exact h1.2)⟩
+  · simp only [h1, Bool.false_eq_true, if_false]
+    by_cases h2 : (!ind.isEmpty && isPreserve n && lastTextEndsWith ind kids) = true
+    · simp only [h2, if_true]
+      right; refine ⟨trivial, Or.inr ?_⟩
+      simp at h2; exact ⟨h2.1.2, h2.2⟩
+    · simp only [h2, Bool.false_eq_true, if_false]
+      left; trivial
+
+/-! #### slim vs normal documents (C12c) -/
+
+mutual
+def setKind (k : Kind) : Node → Node
+  | .text v s => .text v s
+  | .elem _ n st sc ind kids => .elem k n st sc ind (setKindL k kids)
+def setKindL (k : Kind) : List Node → List Node
+  | [] => []
+  | x :: xs => setKind k x :: setKindL k xs
+end
+
+theorem setKindL_eq_map (k : Kind) (l : List Node) : setKindL k l = l.map (setKind k) := by
+  induction l with
+  | nil => simp [setKindL]
+  | cons x xs ih => simp [setKindL, ih]
+
+mutual
+theorem decorate_setKind (cfg : Cfg) (k : Kind) (c : Ctx) (p : Str) :
+    ∀ t : Node, decorate { cfg with kind := k } c p t = setKind k (decorate cfg c p t)
+  | .text true s => by simp [decorate, setKind]
+  | .text false s => by simp [decorate, setKind]
+  | .elem k' n st sc ind kids => by
+    simp only [decorate, setKind, indentAt, getIndent]
+    rw [decorateL_setKind cfg k (c.push n) n kids]
+theorem decorateL_setKind (cfg : Cfg) (k : Kind) (c : Ctx) (p : Str) :
+    ∀ l : List Node, decorateL { cfg with kind := k } c p l = setKindL k (decorateL cfg c p l)
+  | [] => by simp [decorateL, setKindL]
+  | x :: xs => by
+    simp only [decorateL, setKindL]
+    rw [decorate_setKind cfg k c p x, decorateL_setKind cfg k c p xs]
+end
+
+/-- a piece of serialised output: the text of a start tag, or anything else (text block, end tag, doctype line) -/
+inductive Piece where
+  | startT (s : Str)
+  | other (s : Str)
+  deriving Repr, DecidableEq
+
+def Piece.str : Piece → Str
+  | .startT s => s
+  | .other s => s
+
+def flat : List Piece → Str
+  | [] => []
+  | p :: ps => p.str ++ flat ps
+
+theorem flat_append (a b : List Piece) : flat (a ++ b) = flat a ++ flat b := by
+  induction a with
+  | nil => simp [flat]
+  | cons x xs ih => simp [flat, ih]
+
+mutual
+/-- `outerHTML` cut into pieces -/
+def pieces : Node → List Piece
+  | .text _ s => [.other s]
+  | .elem k n st sc ind kids =>
+    .startT (startTag k n st sc ind) :: ((if sc then [] else piecesL kids) ++ [.other (endTag n sc ind kids)])
+def piecesL : List Node → List Piece
+  | [] => []
+  | x :: xs => pieces x ++ piecesL xs
+end
+
+mutual
+theorem outer_eq_flat : ∀ t : Node, outer t = flat (pieces t)
+  | .text _ s => by simp [outer, pieces, flat, Piece.str]
+  | .elem k n st sc ind kids => by
+    simp only [outer, pieces, flat, Piece.str, flat_append]
+    cases sc
+    · simp [innerL_eq_flat kids, flat]
+    · simp [flat]
+theorem innerL_eq_flat : ∀ l : List Node, innerL l = flat (piecesL l)
+  | [] => by simp [innerL, piecesL, flat]
+  | x :: xs => by simp [innerL, piecesL, flat_append, outer_eq_flat x, innerL_eq_flat xs]
+end
+
+/-- what distinguishes slim from normal output: the surgery, on start-tag pieces only -/
+def slimPiece (ssc : Bool) : Piece → Piece
+  | .startT s => .startT (slimSurgery ssc s)
+  | .other s => .other s
+
+theorem lastTextEndsWith_setKind (k : Kind) (ind : Str) (kids : List Node) :
+    lastTextEndsWith ind (setKindL k kids) = lastTextEndsWith ind kids := by
+  unfold lastTextEndsWith
+  rw [setKindL_eq_map, List.getLast?_map]
+  cases kids.getLast? with
+  | none => rfl
+  | some x => cases x <;> simp [setKind]
+
+theorem endTag_setKind (k : Kind) (n : Str) (sc : Bool) (ind : Str) (kids : List Node) :
+    endTag n sc ind (setKindL k kids) = endTag n sc ind kids := by
+  unfold endTag
+  rw [lastTextEndsWith_setKind]
+
+mutual
+theorem pieces_slim (ssc : Bool) : ∀ t : Node,
+    pieces (setKind (.slim ssc) t) = (pieces (setKind .normal t)).map (slimPiece ssc)
+  | .text _ s => by simp [setKind, pieces, slimPiece]
+  | .elem k n st sc ind kids => by
+    simp only [setKind, pieces, endTag_setKind, List.map_cons, List.map_append, slimPiece, startTag_slim_eq]
+    cases sc
+    · simp [piecesL_slim ssc kids, slimPiece]
+    · simp [slimPiece]
+theorem piecesL_slim (ssc : Bool) : ∀ l : List Node,
+    piecesL (setKindL (.slim ssc) l) = (piecesL (setKindL .normal l)).map (slimPiece ssc)
+  | [] => by simp [setKindL, piecesL]
+  | x :: xs => by simp [setKindL, piecesL, pieces_slim ssc x, piecesL_slim ssc xs]
+end
+
+/-- `getHTML` cut into pieces -/
+def docPieces (doctype : Option Str) (root : Node) : List Piece :=
+  let dt := doctypeLine doctype
+  match root with
+  | .elem _ n _ sc _ kids => if n = wrapper then .other dt :: (if sc then [] else piecesL kids) else .other dt :: pieces root
+  | .text _ s => [.other dt, .other s]
+
+theorem docHTML_eq_flat (doctype : Option Str) (r : Node) : docHTML doctype (some r) = .ok (flat (docPieces doctype r)) := by
+  cases r with
+  | text v s => simp [docHTML, docPieces, flat, Piece.str]
+  | elem k n st sc ind kids =>
+    simp only [docHTML, docPieces]
+    by_cases hw : n = wrapper
+    · cases sc <;> simp [hw, flat, Piece.str, innerL_eq_flat]
+    · simp [hw, flat, Piece.str, outer_eq_flat]
+
+theorem docPieces_slim (ssc : Bool) (doctype : Option Str) (r : Node) :
+    docPieces doctype (setKind (.slim ssc) r) = (docPieces doctype (setKind .normal r)).map (slimPiece ssc) := by
+  cases r with
+  | text v s => simp [setKind, docPieces, slimPiece]
+  | elem k n st sc ind kids =>
+    simp only [setKind, docPieces]
+    by_cases hw : n = wrapper
+    · cases sc <;> simp [hw, slimPiece, piecesL_slim]
+    · have := pieces_slim ssc (.elem k n st sc ind kids)
+      simp only [setKind] at this
+      simp [hw, slimPiece, this]
 
 end AHP.Fmt
